@@ -1366,7 +1366,7 @@ func runGROWLOOP(c *Ctx) {
 	for fn := range dir {
 		order = append(order, fn)
 	}
-	sort.Slice(order, func(i, j int) bool { return order[i].Pos() < order[j].Pos() })
+	sort.Slice(order, func(i, j int) bool { return ir.PosLess(order[i].Pos(), order[j].Pos()) })
 	for qi := 0; qi < len(order); qi++ {
 		fn := order[qi]
 		d := dir[fn]
